@@ -50,6 +50,11 @@ def callFunc (name : String) (args : List Value) : String :=
      | some ss => (match findfirstLiteral p ss with | some r => (Value.str r).show | none => "N")
      | none => "UNMODELLED")
   | "grep", [.str p, .str s] => (match grepLiteral p s with | some r => (Value.str r).show | none => "N")
+  | "maxwidth", [.str s, .int n] =>
+    if s.toList.any (fun c => c == '-' || c.toNat ≥ 127 || (c.toNat < 32 && !isWs c)) then "UNMODELLED"
+    else (match shorten s.toList n with
+      | some r => (Value.str (String.ofList r)).show
+      | none => "ERR:ValueError")
   | "abs", [.dec d] => (Value.dec (decAbs d)).show
   | "safediv", [.dec x, .dec y] => (Value.dec (safediv x y)).show
   | "safediv", [.dec x, .int y] => (Value.dec (safediv x (Dec.ofInt y))).show
